@@ -8,7 +8,7 @@
 //!
 //! The auxiliary structures add approximately 3-5% space overhead:
 //! - Superblock ranks: 1 u32 per 512 bits = 0.78% overhead
-//! - Block ranks: 1 u8 per 64 bits = 1.56% overhead
+//! - Block ranks: 7 nine-bit counts packed in 1 u64 per 512 bits = 1.56% overhead
 //! - Select samples: 1 u32 per 4096 1-bits ≈ 0.1% for dense vectors
 //!
 //! # Performance
@@ -27,6 +27,12 @@ const BLOCK_BITS: usize = 64;
 
 /// Blocks per superblock.
 const BLOCKS_PER_SUPERBLOCK: usize = SUPERBLOCK_BITS / BLOCK_BITS; // 8
+
+/// Bits per packed block rank (the largest value, 448, needs nine).
+const BLOCK_RANK_BITS: usize = 9;
+
+/// Mask for one packed block rank.
+const BLOCK_RANK_MASK: u64 = (1 << BLOCK_RANK_BITS) - 1;
 
 /// Sampling interval for select (every 4096 1-bits).
 const SELECT_SAMPLE_RATE: usize = 4096;
@@ -59,10 +65,12 @@ pub struct SuccinctBitVector {
     /// superblock_ranks[i] = number of 1-bits in [0, i * SUPERBLOCK_BITS).
     superblock_ranks: Vec<u32>,
 
-    /// Relative rank within superblock for each block.
-    /// block_ranks[i] = number of 1-bits from superblock start to block i start.
-    /// Uses u8 since max value is SUPERBLOCK_BITS - BLOCK_BITS = 448.
-    block_ranks: Vec<u8>,
+    /// Relative ranks within each superblock, one packed word per superblock.
+    /// Bits [9 * (j - 1), 9 * j) of block_ranks[s] hold the number of 1-bits from the
+    /// start of superblock s to the start of its block j, for j in 1..=7 (block 0 of a
+    /// superblock always starts at relative rank 0). Nine bits per count since the
+    /// max value is SUPERBLOCK_BITS - BLOCK_BITS = 448.
+    block_ranks: Vec<u64>,
 
     /// Sample positions for select1.
     /// select1_samples[i] = position of (i * SELECT_SAMPLE_RATE)-th 1-bit.
@@ -93,7 +101,8 @@ impl SuccinctBitVector {
         let num_blocks = (len + BLOCK_BITS - 1) / BLOCK_BITS;
 
         let mut superblock_ranks = Vec::with_capacity(num_superblocks);
-        let mut block_ranks = Vec::with_capacity(num_blocks);
+        let mut block_ranks: Vec<u64> =
+            Vec::with_capacity((num_blocks + BLOCKS_PER_SUPERBLOCK - 1) / BLOCKS_PER_SUPERBLOCK);
         let mut select1_samples = Vec::new();
         let mut select0_samples = Vec::new();
 
@@ -107,14 +116,20 @@ impl SuccinctBitVector {
             let bit_pos = block_idx * BLOCK_BITS;
 
             // Start of new superblock?
-            if block_idx % BLOCKS_PER_SUPERBLOCK == 0 {
+            let slot = block_idx % BLOCKS_PER_SUPERBLOCK;
+            if slot == 0 {
                 superblock_ranks.push(cumulative_ones);
                 superblock_start_ones = cumulative_ones;
+                block_ranks.push(0);
             }
 
             // Store relative rank within superblock
             let relative_rank = cumulative_ones - superblock_start_ones;
-            block_ranks.push(relative_rank as u8);
+            if slot > 0
+                && let Some(packed) = block_ranks.last_mut()
+            {
+                *packed |= u64::from(relative_rank) << (BLOCK_RANK_BITS * (slot - 1));
+            }
 
             // Count bits in this word
             let bits_in_word = if bit_pos + BLOCK_BITS <= len {
@@ -205,6 +220,18 @@ impl SuccinctBitVector {
         self.inner
     }
 
+    /// Returns the number of 1-bits from the start of a block's superblock to the block's start.
+    fn block_rank(&self, block_idx: usize) -> usize {
+        let slot = block_idx % BLOCKS_PER_SUPERBLOCK;
+        if slot == 0 {
+            return 0;
+        }
+        match self.block_ranks.get(block_idx / BLOCKS_PER_SUPERBLOCK) {
+            Some(packed) => ((packed >> (BLOCK_RANK_BITS * (slot - 1))) & BLOCK_RANK_MASK) as usize,
+            None => 0,
+        }
+    }
+
     /// Returns the number of 1-bits in the range [0, pos).
     ///
     /// # Time complexity
@@ -239,9 +266,7 @@ impl SuccinctBitVector {
         let mut rank = self.superblock_ranks[superblock_idx] as usize;
 
         // Add block relative count
-        if block_idx < self.block_ranks.len() {
-            rank += self.block_ranks[block_idx] as usize;
-        }
+        rank += self.block_rank(block_idx);
 
         // Add popcount within the current word
         if bit_offset > 0 && block_idx < self.inner.data().len() {
@@ -304,12 +329,13 @@ impl SuccinctBitVector {
 
         // Find the block within the superblock
         let block_start = superblock_idx * BLOCKS_PER_SUPERBLOCK;
-        let block_end = ((superblock_idx + 1) * BLOCKS_PER_SUPERBLOCK).min(self.block_ranks.len());
+        let block_end =
+            ((superblock_idx + 1) * BLOCKS_PER_SUPERBLOCK).min(self.inner.data().len());
         let superblock_base_rank = self.superblock_ranks[superblock_idx] as usize;
 
         let mut block_idx = block_start;
         for i in block_start..block_end {
-            let block_rank = superblock_base_rank + self.block_ranks[i] as usize;
+            let block_rank = superblock_base_rank + self.block_rank(i);
             if block_rank >= target_rank {
                 break;
             }
@@ -317,7 +343,7 @@ impl SuccinctBitVector {
         }
 
         // Linear scan within the block
-        let block_base_rank = superblock_base_rank + self.block_ranks[block_idx] as usize;
+        let block_base_rank = superblock_base_rank + self.block_rank(block_idx);
         let remaining = k - block_base_rank;
 
         if block_idx >= self.inner.data().len() {
@@ -429,7 +455,7 @@ impl SuccinctBitVector {
     #[must_use]
     pub fn auxiliary_size_bytes(&self) -> usize {
         self.superblock_ranks.len() * 4
-            + self.block_ranks.len()
+            + self.block_ranks.len() * 8
             + self.select1_samples.len() * 4
             + self.select0_samples.len() * 4
     }
@@ -460,6 +486,28 @@ impl Default for SuccinctBitVector {
 #[cfg(test)]
 mod tests {
     use super::*;
+
+    #[test]
+    fn test_rank_select_dense_superblock() {
+        // More than 255 ones precede the later blocks of a superblock.
+        let bits = vec![true; 1200];
+        let sbv = SuccinctBitVector::from_bools(&bits);
+        for pos in [0, 1, 255, 256, 257, 300, 448, 511, 512, 700, 1199, 1200] {
+            assert_eq!(sbv.rank1(pos), pos, "rank1({pos})");
+            assert_eq!(sbv.rank0(pos), 0, "rank0({pos})");
+        }
+        for k in [0, 255, 256, 300, 511, 512, 1199] {
+            assert_eq!(sbv.select1(k), Some(k), "select1({k})");
+        }
+        assert_eq!(sbv.select1(1200), None);
+
+        let mut bits = vec![true; 300];
+        bits.push(false);
+        bits.extend(vec![true; 30]);
+        let sbv = SuccinctBitVector::from_bools(&bits);
+        assert_eq!(sbv.select0(0), Some(300));
+        assert_eq!(sbv.rank1(320), 319);
+    }
 
     #[test]
     fn test_empty() {
